@@ -5,6 +5,8 @@
    lexer and parser (Model/PeriodExpr.v, parse_text) make of the TEXT; Q N FROM TO - the harness's own
    reading of the expression - are NOT used by the model (the oracle uses them).  The postings are limited
    to the [from, to) of the parsed interval as report_t::normalize_period does (glue).
+   SOW = hex of the TEXT given to --start-of-week (`0` when the option is absent): week_start_of_text decides
+   which day it names, or that the run is refused ("ID ERR").
    (period ID Q N FROM TO TODAY FMT CY EXPR (DATES))     Q = d|w|m|q|y
      -> "ID start=S finish=F samples=s:e,s:e,... toks=TOK_X,..."   (e = end_of_duration, exclusive) | "ID ERR"
    (reg ID Q N FROM TO SOW ALIGN EMPTY FMT CY EXPR (DATES) (D NUM DEN) ...)     all postings of the account, date order
@@ -23,6 +25,8 @@ let show_opt = function None -> "-" | Some z -> string_of_z z
 
 let ival_of fmt cy expr dates =
   parse_text (str_of_hex (atom fmt)) (zatom cy) (str_of_hex (atom expr)) (List.map zatom (items dates))
+
+let sow_of x = week_start_of_text (str_of_hex (atom x))
 
 let ptok_name = function
   | T_AGO -> "AGO" | T_HENCE -> "HENCE" | T_SINCE -> "SINCE" | T_UNTIL -> "UNTIL" | T_IN -> "IN"
@@ -65,25 +69,25 @@ let handle line =
           (String.concat "," (List.map (fun (a, b) -> string_of_z a ^ ":" ^ string_of_z b) l)) toks]
      | Err _ -> [id ^ " ERR"]))
   | L (A "reg" :: A id :: A _ :: _ :: _ :: _ :: sow :: align :: empty :: fmt :: cy :: expr :: dates :: posts) ->
-    (match ival_of fmt cy expr dates with
-     | Err _ -> [id ^ " ERR"]
-     | Ok st ->
+    (match ival_of fmt cy expr dates, sow_of sow with
+     | Err _, _ | _, Err _ -> [id ^ " ERR"]
+     | Ok st, Ok sow ->
     let f = st.i_from and t = st.i_to in
     let ps = List.filter (within f t) (List.map post_of posts) in
-    (match flush_posts fuel (zatom sow) (batom align) (batom empty) st ps with
+    (match flush_posts fuel sow (batom align) (batom empty) st ps with
      | Ok rows -> [Printf.sprintf "%s rows=%s" id (show_rows (Ok rows))]
      | Err _ -> [id ^ " ERR"]))
   | L (A "greg" :: A id :: A _ :: _ :: _ :: _ :: sow :: align :: empty :: fmt :: cy :: expr :: dates :: groups) ->
-    (match ival_of fmt cy expr dates with
-     | Err _ -> [id ^ " ERR"]
-     | Ok st ->
+    (match ival_of fmt cy expr dates, sow_of sow with
+     | Err _, _ | _, Err _ -> [id ^ " ERR"]
+     | Ok st, Ok sow ->
     let f = st.i_from and t = st.i_to in
     let gs = List.map (function
         | L (A "group" :: posts) -> List.filter (within f t) (List.map post_of posts)
         | _ -> failwith "group") groups in
     let gs = List.filter (fun g -> g <> []) gs in       (* a group without postings in the bounds does not exist *)
     [Printf.sprintf "%s groups=%s" id
-       (String.concat "|" (List.map show_rows (group_by_report fuel (zatom sow) (batom align) (batom empty) st gs)))])
+       (String.concat "|" (List.map show_rows (group_by_report fuel sow (batom align) (batom empty) st gs)))])
   | L [A "civil"; A id; z] ->
     let ((y, m), d) = civil_from_days (zatom z) in
     [Printf.sprintf "%s %s-%s-%s %s" id (string_of_z y) (string_of_z m) (string_of_z d)
